@@ -10,6 +10,7 @@ import (
 // H_C13_swapOutInitiation: a Liquid swap-out initiator (taker) sends its request (which carries its swap
 // pubkey) only after a record holding the payment-window anchor has been stored, and the anchor in the
 // final data equals the stored one.  Bound: <= 1 injected service fault.
+// zzverif:also C23
 func H_C13_swapOutInitiation() {
 	env := newEnv(true, true)
 	env.w.maxFaults = 1
@@ -23,6 +24,7 @@ func H_C13_swapOutInitiation() {
 		if s.msgType == int(messages.MESSAGETYPE_SWAPOUTREQUEST) {
 			nReq++
 			zzverif.Reach("c13.request_sent")
+			zzverif.AssertNoFlow("C23.request_reveals_only_the_pubkey", s.payload, "rand.GetPreimage", "newprivkey", "privkey")
 			zzverif.Assert(s.recExists && s.recAnchorSet, "C13.anchor_stored_before_request")
 			if err == nil && sm != nil {
 				zzverif.Assert(sm.Data.StartingBlockHeightSet && sm.Data.StartingBlockHeight == s.recAnchor, "C13.request_anchor_is_final_anchor")
@@ -34,6 +36,7 @@ func H_C13_swapOutInitiation() {
 
 // H_C13_swapInAgreement: a Liquid swap-in responder (taker) sends its agreement (carrying its pubkey) only
 // after a record holding the anchor has been stored.
+// zzverif:also C23
 func H_C13_swapInAgreement() {
 	env := newEnv(true, true)
 	env.w.maxFaults = 1
@@ -47,6 +50,7 @@ func H_C13_swapInAgreement() {
 		s := w.sends[i]
 		if s.msgType == int(messages.MESSAGETYPE_SWAPINAGREEMENT) {
 			zzverif.Reach("c13.agreement_sent")
+			zzverif.AssertNoFlow("C23.agreement_reveals_only_the_pubkey", s.payload, "rand.GetPreimage", "newprivkey", "privkey")
 			zzverif.Assert(s.recExists && s.recAnchorSet, "C13.anchor_stored_before_agreement")
 			if sm, err := svc.GetActiveSwap(id.String()); err == nil {
 				zzverif.Assert(sm.Data.StartingBlockHeightSet && sm.Data.StartingBlockHeight == s.recAnchor, "C13.agreement_anchor_is_final_anchor")
